@@ -140,6 +140,12 @@ class Tracer:
                     os.kill(REAL_GETPID(), signal.SIGKILL)
                 finally:
                     os._exit(137)
+            if f.kind == "sigterm":
+                # the ordinary way to kill a process.  Without a handler this is the same as the crash; with
+                # one (installed by the producer) the handler runs right here, in the middle of whatever
+                # the producer was doing, and the stack is then unwound (finally blocks, `with` exits)
+                os.kill(REAL_GETPID(), signal.SIGTERM)
+                return None
             if f.kind == "sibling":
                 # a second producer (another job working in the same directory) runs from start to
                 # end right here, between two system calls of this one; its calls are traced as well
@@ -503,6 +509,7 @@ def run_child(scenario_fn, watch, fault, bufsizes, name_seed, report_fd, exdev=F
         except OSError:
             pass
         tracer.open_log(logpath)
+        signal.signal(signal.SIGTERM, signal.SIG_DFL)  # whatever the harness process had installed
         install(tracer)
         try:
             info = scenario_fn(tracer) or {}
